@@ -150,4 +150,20 @@ pub fn gen(rng: &mut Rng, tier: Tier, out: &mut Vec<String>) {
     // clone / mutation interleavings on random histories (the executors snapshot operands around every by-reference call)
     let nh = if tier == Tier::Quick { 150 } else { 3000 };
     for _ in 0..nh { let n1 = 1 + rng.below(20); out.push(c03::gen_hist::<Q>(rng, n1, 30)); let n2 = 1 + rng.below(20); out.push(c15::gen_hist::<Q>(rng, n2, 30, 8)); }
+
+    // LARGER SIZES: off-by-one mismatches next to the thresholds of blocked / chunked loops (a guard that is only evaluated
+    // on a fast path, or lost when a delegation is inlined, shows at these sizes only)
+    for &n in BIG.iter().filter(|n| **n <= 40) { for d in [1usize, 2] {
+        let (a, b) = if d == 1 { (n, n + 1) } else { (n, n - 1) };
+        out.push(format!("vec_hist q {} 4 add {} sub {} dot {} add {}", gen_vec_str::<Q>(rng, a, 10, 0), gen_vec_str::<Q>(rng, b, 10, 0), gen_vec_str::<Q>(rng, b, 10, 0), gen_vec_str::<Q>(rng, b, 10, 0), gen_vec_str::<Q>(rng, a, 10, 0)));
+        out.push(format!("vec_hist f {} 3 add {} sub {} dot {}", gen_vec_str::<f64>(rng, a, 10, 0), gen_vec_str::<f64>(rng, b, 10, 0), gen_vec_str::<f64>(rng, b, 10, 0), gen_vec_str::<f64>(rng, b, 10, 0)));
+        if n <= 25 { let c = 2 + rng.below(3);
+            out.push(format!("mat_hist q {} 4 add {} sub {} mul {} mulv {}", gen_mat_str::<Q>(rng, a, c, 30, 0), gen_mat_str::<Q>(rng, b, c, 30, 0), gen_mat_str::<Q>(rng, a, c + 1, 30, 0), gen_mat_str::<Q>(rng, c + 1, 2, 30, 0), gen_vec_str::<Q>(rng, c + 1, 10, 0)));
+            out.push(format!("mat_hist q {} 3 mulv {} mul {} setcol 0 {}", gen_mat_str::<Q>(rng, c, a, 30, 0), gen_vec_str::<Q>(rng, b, 10, 0), gen_mat_str::<Q>(rng, b, 2, 30, 0), gen_vec_str::<Q>(rng, c + 1, 10, 0)));
+            let v = crate::c06::gen_pattern::<Q>(rng, a, c, 30);
+            let mut s = format!("{}", v.len()); for (i, j, x) in &v { s.push_str(&format!(" {} {} {}", i, j, x.wr())); }
+            out.push(format!("sp_prod q {} {} {} {} {} 2", a, c, s, gen_vec_str::<Q>(rng, c + 1, 0, 0), gen_vec_str::<Q>(rng, b, 0, 0)));
+            out.push(format!("tri_mis {} {} {} {} {}", a, b, gen_vec_str::<Q>(rng, b, 0, 0), rng.below(a + 2), rng.below(a + 2)));
+            out.push(format!("band_mis {} {} {} 2 {} {} {} 3 {} {}", a, 1, 2, b, 1, 2, gen_vec_str::<Q>(rng, b, 0, 0), rng.range(-3, 4))); }
+    } }
 }
